@@ -853,7 +853,7 @@ def _np_error_table(idx, h):
         return None
     table = lp.iter
     if isinstance(table, ast.Name):
-        vals = h.module.assigns.get(table.id, [])
+        vals = lib.assigned_value(h.node, table.id) or h.module.assigns.get(table.id, [])
         if len(vals) != 1:
             return None
         table = vals[0]
